@@ -259,6 +259,35 @@ def bounded_checks(tab, seed, tier):
     out.append(dict(ident="density.PromoleculeDensity.rho/bounded/far_points", failures=f_far, evaluations=ev_far, distinct=ev_far,
                     domain="Z in {1, 6, 26, 79, 103}, one atom at the origin, points at 50 A .. 1e6 A along x; same relative tolerance", rule="distinct (element, distance) pairs"))
 
+    # -- (1c) a system of several thousand atoms: the density of the whole is the sum of the densities of its parts, at points close to a heavy nucleus included
+    f_sys, ev_sys = [], 0
+    try:
+        g_ = np.arange(17) * 2.4
+        latt = np.array([[x_, y_, z_] for x_ in g_ for y_ in g_ for z_ in g_], dtype=float)                # 4913 sites
+        Zl = rng.choice([1, 6, 7, 8], size=len(latt))
+        Zl[len(latt) // 2] = 79
+        centre = latt[len(latt) // 2]
+        dirs = rng.normal(size=(24, 3))
+        dirs /= np.linalg.norm(dirs, axis=1)[:, None]
+        ptsL = (centre + dirs * np.linspace(0.35, 1.4, 24)[:, None]).astype(np.float32)
+        whole = np.asarray(PromoleculeDensity((Zl, latt)).rho(ptsL), dtype=np.float64)
+        parts = np.zeros(len(ptsL))
+        for lo in range(0, len(latt), 1000):
+            parts += np.asarray(PromoleculeDensity((Zl[lo:lo + 1000], latt[lo:lo + 1000])).rho(ptsL), dtype=np.float64)
+        ev_sys = len(ptsL)
+        tolL = (10.0 * kap + 8.0 + 64) * U32           # (only a few dozen atoms are within table range of these points)
+        badL = ~(np.abs(whole - parts) <= 4 * tolL * parts)
+        if badL.any():
+            k = int(np.argmax(badL))
+            rec(f_sys, "large_system", {"atoms": int(len(latt)), "lattice": "17 x 17 x 17 sites 2.4 A apart, H/C/N/O and one Au at the centre", "point": ptsL[k].tolist(),
+                                        "distance_from_the_Au_nucleus": float(np.linalg.norm(ptsL[k] - centre))},
+                {"rho_of_all_4913_atoms": float(whole[k]), "sum_over_5_parts": float(parts[k])}, "rho of a large system equals the sum of rho over a partition of its atoms")
+    except Exception as e:  # noqa
+        ev_sys += 1
+        rec(f_sys, "large_system_raise", {"atoms": 4913}, {"raised": repr(e)[:200]}, "rho returns normally")
+    out.append(dict(ident="density.PromoleculeDensity.rho/bounded/large_system", failures=f_sys, evaluations=ev_sys, distinct=ev_sys,
+                    domain="4913 atoms on a lattice (H/C/N/O, one Au), 24 points 0.35-1.4 A from the Au nucleus: whole system against the sum over five parts", rule="points compared"))
+
     # -- (2) multi-atom systems: oracle sum, positivity, additivity, order, rigid motion, weights ------------------------------
     nsys = 120 if tier == "quick" else 2000
     npt = 400 if tier == "quick" else 1500
